@@ -1,4 +1,4 @@
-"""KNOWN FINDING C02-resume-blocked-interrupted: pre-emptive schedule with 'resume' at a node whose customers can
+"""C02 (D26, formerly listed as finding C02-resume-blocked-interrupted; fixed by /repo 996246f): pre-emptive schedule with 'resume' at a node whose customers can
 be blocked.  A customer that has finished service and is blocked when the shift ends is 'interrupted'; when the
 servers return while it is still blocked it is restarted with time_left = service_end_date - shift_end < 0, so
 its new end of service lies in the past and the clock goes backwards."""
